@@ -250,6 +250,26 @@ def _impl(tier, seed, search):
                     L.fail('documented:Plucker|^Plucker', f'Plucker | / ^ Plucker raised {type(e).__name__}', inp); continue
                 if not isinstance(par_, (bool, np.bool_)) or not isinstance(hit_, (bool, np.bool_)): L.fail('documented:Plucker|^Plucker', f'Plucker | Plucker / Plucker ^ Plucker returned {type(par_).__name__} / {type(hit_).__name__}, not booleans', inp)
                 elif bool(par_) or (np.allclose(P_, 0) and not bool(hit_)): L.fail('documented:Plucker|^Plucker:value', f'two lines through one point whose directions differ by about {d_:g} rad: | gives {bool(par_)} (documented: False), ^ gives {bool(hit_)} (documented: True)', inp, observed=[bool(par_), bool(hit_)])
+        # == and != on the same line built from different point pairs far along it (and from a rescaled direction): True / False
+        for P0_, dd_ in ((np.array([1.0, -2.0, 0.5]), np.array([1.0, 2.0, 2.0]) / 3.0), (np.array([30.0, 10.0, -20.0]), np.array([2.0, -1.0, 2.0]) / 3.0), (np.array([0.3, 0.7, -1.1]), np.array([0.36, 0.48, 0.8])),
+                         (np.array([0.3, -0.2, 0.5]), np.array([1.0, 2.0, 3.0]) / math.sqrt(14.0)), (np.array([-4.1, 2.2, 0.9]), np.array([0.1, -0.7, 0.3]) / math.sqrt(0.59))):
+            for (s1_, s2_, s3_, s4_) in ((10.0, 11.0, -7.0, 3.0), (100.0, 101.5, -50.0, 0.0), (0.0, 1.0, 2.0, 5.0), (10.0, 11.0, -7.0, 3.3), (17.3, 18.1, -7.7, 3.9)):
+                inp = dict(P0=P0_, dir=dd_, params=[s1_, s2_, s3_, s4_])
+                L.count('plucker-eq', key=(tuple(P0_), s1_))
+                try: la_, lb_ = Plucker.PQ(P0_ + s1_ * dd_, P0_ + s2_ * dd_), Plucker.PQ(P0_ + s3_ * dd_, P0_ + s4_ * dd_); eq_, ne_ = la_ == lb_, la_ != lb_
+                except Exception as e:
+                    L.fail('documented:Plucker==Plucker', f'Plucker == Plucker raised {type(e).__name__}', inp); continue
+                if not (isinstance(eq_, (bool, np.bool_)) and bool(eq_) and not bool(ne_)): L.fail('documented:Plucker==Plucker:value', f'the same line built from two other points on it: == gives {eq_!r}, != gives {ne_!r}', inp, observed=[repr(eq_), repr(ne_)])
+        # a plain list or tuple on the left of * is not an operand either (scalar * pose is the only reflected product)
+        for c in POSE:
+            n_ = dict(SO2=2, SE2=2, SO3=3, SE3=3)[c]
+            for m in (1, 2):
+                for seq_ in ([1.0] * n_, tuple([2.0] * n_), [1.0] * (n_ + 1), [[1.0] * n_]):
+                    inp = dict(cls=c, op='list * X', operand=repr(seq_)[:30], len=m)
+                    L.count('list*pose', key=(c, repr(seq_)[:12], m)); L.sample('list*pose', inp)
+                    try: got = classify(seq_ * mk(c, m))
+                    except Exception: continue
+                    L.fail(f'must-raise:list*{c}', f'{type(seq_).__name__} * {c} must raise but returned {got}', inp, observed=got, required='exception')
         # a line times anything that is not a line (arrays of six numbers included) has no meaning
         for rv_ in ([1.0, 2, 3, 4, 5, 6], (1.0, 2, 3, 4, 5, 6), np.arange(6.0), np.arange(6.0).reshape(6, 1), np.arange(6.0).reshape(1, 6), 2.0, np.arange(3.0)):
             for opn_, fo_ in (('*', operator.mul), ('+', operator.add), ('-', operator.sub), ('/', operator.truediv)):
